@@ -16,6 +16,20 @@ CLAIMS = {
             "Lean 4 theorem (BitVec/Int lemmas, omega) + model/code correspondence + table regeneration"),
     "C17": ("proof", "Theorems imm_spec/imm_sound/imm_complete/imm_rejects/notation_independent: the model of Imm::from_str accepts a literal iff the unbounded integer it denotes lies in [-2^31,2^32) and then returns its low 32 bits; digit loop with overflow check proved by induction. Tied to the code by boundary-exhaustive + random differential runs in both profiles against the model and an independent Python denotation.", "5 C17",
             "Lean 4 theorem (induction over digit lists) + model/code correspondence"),
+    "C09": ("proof", "Theorems adv_inv / lexNext_ok / lexAll_positions: every position carried by every token, string error and unexpected-character item of the lexer model satisfies raw <= size, line = number of newlines before raw, column = distance from the line start, for every source text (cursor invariant by induction over all lexer loops). Parser-node, operand-token, parse-error and diagnostic ranges are checked on the real code by slicing the source with the reported range, on generated layouts (blank lines, tabs, comments, several statements per line, CRLF, no final newline), and all stages are diffed against the Lean model.", "5 C09",
+            "Lean 4 theorem (cursor invariant, fun_induction over lexer loops) + model/code correspondence + range-slicing oracle"),
+    "C07": ("proof", "Theorems lex_covers (every character is a blank or lies in the text consumed for exactly one reported item; only blanks remain when the iterator ends), lexNext_progress, recover_spec/recover_suffix (error recovery discards exactly the rest of the current line). Parser level: line-accounting and containment oracles on the real parser over one-statement-per-line files with every kind of malformed line at every kind of position (base/included file, LF/CRLF, with/without final newline), plus diff of parse traces against the Lean model.", "5 C07",
+            "Lean 4 theorem (lexer coverage/progress, recovery lemma) + model/code correspondence + metamorphic line-deletion oracle"),
+    "C03": ("proof", "Theorems addEdge_symm, cutOut_symm, cutIn_symm, directions_symm, deadCode_symm, ecallTerm_symm: prev/next are exact inverses (and all edges stay inside the node array) after the direction pass, dead-code pruning and ecall termination, for every graph. Edge kinds, symmetry after every pass (including markup) and 'every executed control transfer is an edge / executed nodes are not reported unreachable' are checked on the real graph with a concrete RV32IM interpreter; all stages diffed against the Lean model.", "5 C03",
+            "Lean 4 theorem (graph invariant preserved by each pass) + model/code correspondence + concrete-execution oracle"),
+    "C11": ("proof", "Theorem mark_reachable_owner / markLoop_own: every instruction the markup walk records for a function carries that function as owner, indices and edges stay in range, across the in-walk rewiring of additional returns. 'function iff called', 'body = reachable set' (independent DFS), owner consistency and single exit are checked on the real finished graph; stages diffed against the Lean model.", "5 C11",
+            "Lean 4 theorem (DFS invariant with mutation) + model/code correspondence + reachability oracle"),
+    "C02": ("proof", "Theorems liveNode_stable (a node update that reports no change satisfies the five-case liveness equations) and live_path_sound (in any solution of the equations a register read at the end of a path of ordinary instructions and not overwritten before is live at its start). Minimality and dynamic coverage are checked on the real code: an independent least-fixed-point solver of the documented equations must reproduce the real live sets exactly, and every register read in concrete executions must be live since its defining write.", "5 C02",
+            "Lean 4 theorem (equations from stability, path induction) + model/code correspondence + reference solver + concrete execution"),
+    "C01": ("proof", "Theorems meetOver_sound, erase_sound, fold_const_sound, fold_imm_sound, fold_ors_sound, fold_ors_right_sound (all four arms of the folding rule are sound against RV32IM for all operand values, via operate_rv32; meets and kills preserve soundness). The memory rules and the trace induction are NOT proved (partial); they are covered by a concrete-execution oracle that evaluates every constant/address/entry-relative claim of the real analyzer on executions from random states, and by the diff against the Lean model.", "5 C01",
+            "Lean 4 theorem (per-rule soundness, partial) + model/code correspondence + concrete-execution oracle"),
+    "C12": ("proof", "Theorems ecallStep_idem, ecallStep_facts, cutOut_facts (ecall termination is idempotent per node and changes no fact), liveNode_stable (an unchanged liveness update is a fixed point). Stability of the whole pipeline is checked on the real code: arbitrary extra runs of the value pass / ecall termination / liveness after the standard pipeline must leave value maps, live sets, edges and diagnostics identical. Termination bounds are NOT proved (see known finding F-12).", "5 C12",
+            "Lean 4 theorem (idempotence/fixed point lemmas, partial) + model/code correspondence with extra pass sequences"),
 }
 
 REASON_PENDING = ("not claimed yet in this commit: executable model and theorems for this property are "
